@@ -39,6 +39,7 @@ def universes(tier):
     us.append(("Rxn(A01,2) fwd+converse", pf.dedupe(pf.rxn_universe(alpha, 2)), {}, 25 if tier == "quick" else 40))
     us.append(("ions+heavy Rxn(.,2) fwd+converse", pf.dedupe(pf.rxn_universe(IONS_HEAVY, 2 if tier == "thorough" else 1) + pf.SPECIAL), {}, 30))
     us.append(("hand (converse)", pf.dedupe(pf.HAND), {}, 6))
+    us.append(("size ladder (fwd+converse)", pf.dedupe(pf.LARGE), {}, 3))
     us.append(("corpus expected family", corpus_family(None if tier == "thorough" else 150), {}, 40))
     return us
 
